@@ -19,6 +19,8 @@ from __future__ import annotations
 
 import warnings
 
+import sys
+
 from engines import dsched as S
 from engines import ps38ref as R
 
@@ -136,6 +138,15 @@ class Recorder:
                 detail = bytes(event.data)
             elif name in ("EVT_ACSE_SENT", "EVT_ACSE_RECV"):
                 detail = type(event.primitive).__name__
+            elif name in ("EVT_ABORTED", "EVT_RELEASED", "EVT_REJECTED", "EVT_ESTABLISHED"):
+                # call site: the pynetdicom function that triggered the notification (tells two ways of reaching the same outcome apart)
+                f = sys._getframe(1)
+                while f is not None:
+                    fn = f.f_code.co_filename.replace("\\", "/")
+                    if "/pynetdicom/" in fn and not fn.endswith("/events.py"):
+                        detail = f"{fn.rsplit('/', 1)[-1][:-3]}.{f.f_code.co_name}"
+                        break
+                    f = f.f_back
             self.events.append((round(self.w.now - 1000.0, 6), key, name, detail))
             cb = self.on_event.pop(name, None)
             if cb is None and detail is not None and isinstance(detail, str):
